@@ -322,10 +322,10 @@ class TCPPacketGenerator(Device, OutMixIn):
         if ackno == self.last_ack:
             self.dupack += 1
         else:
-            # fast recovery
-            if self.dupack > 0:
+            # fast recovery is only entered at the third duplicate ACK
+            if self.dupack >= 3:
                 self.congestion_control.dupack_over()
-                self.dupack = 0
+            self.dupack = 0
 
         if self.dupack == 3:
             self.congestion_control.consecutive_dupacks_received()
